@@ -95,7 +95,41 @@ def run(p, led, tier):
     if len(sites) < 2:
         raise AnchorError(f"only {len(sites)} tool execution site(s) found; the expression pathway and the structured tool-call path are expected")
 
+    # ---- the gate, decided semantically at the public entry points: the tool body runs  ⇔  no ceiling ∨ required ⊆ allowed
+    interpreted, sem_ok = _capability_tables(p, led, mito)
+    if sem_ok:
+        led.ok("C03-R3", "Mitochondria ▸ a refused tool is reported as a failure result at every interpreted entry point", where(interpreted[0], interpreted[0].node),
+               "every refusing cell of the capability tables returns success=False (rows above)")
+    cg_reach = {f.key: {g.key for g in res.reachable_from(f)} for f in p.all_funcs if not f.name.startswith("_") or f.name == "__call__"}
+
+    def covered(site_fn):
+        """every public function that reaches the site does so only through an interpreted entry point"""
+        ikeys = {e.key for e in interpreted}
+        for f in p.all_funcs:
+            if f.key not in cg_reach or site_fn.key not in cg_reach[f.key] or f.key in ikeys:
+                continue
+            # reach from f without passing through an interpreted entry point
+            seen, todo = {f.key}, [f]
+            hit = False
+            while todo and not hit:
+                g = todo.pop()
+                for h, _c in res.callees(g):
+                    if h.key in ikeys or h.key in seen:
+                        continue
+                    if h.key == site_fn.key:
+                        hit = True
+                        break
+                    seen.add(h.key)
+                    todo.append(h)
+            if hit or f.key == site_fn.key:
+                return False
+        return True
+
     for fi, call, recv in sites:
+        if sem_ok and covered(fi):
+            led.ok("C03-R1", f"{fi.qual} ▸ {short(call, 50)}", where(fi, call),
+                   "reached only through the interpreted entry points, whose capability tables hold for every required / allowed set (rows above)")
+            continue
         cfg = cfg_of(fi, led)
         node = cfg.node_of(call)
         key = f"{fi.qual} ▸ {short(call, 50)}"
@@ -246,6 +280,141 @@ def run(p, led, tier):
 
 
 # ----------------------------------------------------------------------
+def _capability_tables(p, led, mito):
+    """metabolize (tool pathway, forced and auto-detected) and execute_tool_call interpreted for every required set ×
+    every ceiling over three capabilities (plus each single capability): the tool body runs exactly when the statement
+    allows it, and a refusal is a failure result.  Returns (interpreted entry points, all rows hold)."""
+    import itertools
+    from ..fdai import Interp, Obj, Unknown, PyRaise, explore, Imprecise, stub
+    st = p.cls("SimpleTool", M)
+    CAP = p.cls("Capability", "operon_ai/core/types.py")
+    MP = p.cls("MetabolicPathway", M)
+    members = [n for n, _ in CAP.enum_members()]
+    met = p.find_method(mito, "metabolize")
+    etc = p.find_method(mito, "execute_tool_call")
+    if met is None or etc is None:
+        raise AnchorError("Mitochondria.metabolize / execute_tool_call not found")
+    base = members[:3]
+    subsets = [frozenset(c) for k in range(len(base) + 1) for c in itertools.combinations(base, k)]
+    combos = [(r, a) for r in subsets for a in [None] + subsets]
+    combos += [(frozenset({m_}), a) for m_ in members[3:] for a in (None, frozenset(), frozenset({m_}), frozenset(base))]
+    ok_all = True
+    for label, how in (("metabolize ▸ tool pathway (forced)", "forced"), ("metabolize ▸ tool pathway (auto-detected)", "auto"), ("execute_tool_call", "call")):
+        bad, npaths = [], 0
+        for req, allowed in combos:
+            def go(o, _req=req, _allowed=allowed):
+                it = Interp(p, o)
+                ran = []
+
+                @stub
+                def body(interp, args, kwargs):
+                    ran.append(1)
+                    return "done"
+                m = it.instantiate(mito, [], dict(allowed_capabilities=(None if _allowed is None else {it.enum_member(CAP, c) for c in _allowed}), silent=True))
+                t = it.instantiate(st, [], dict(name="t", description="d", func=body, required_capabilities={it.enum_member(CAP, c) for c in _req}))
+                it.call_fi(p.find_method(mito, "engulf_tool"), [m, t], {})
+                try:
+                    if how == "call":
+                        tc = Obj(None, {"name": "t", "id": "c1", "arguments": {}}, tag="toolcall")
+                        r = it.call_fi(etc, [m, tc], {})
+                    else:
+                        r = it.call_fi(met, [m, "t()"] + ([it.enum_member(MP, "OXIDATIVE")] if how == "forced" else []), {})
+                except PyRaise as e:
+                    return dict(raised=repr(e.exc), ran=len(ran))
+                return dict(success=r.fields.get("success") if isinstance(r, Obj) else None, ran=len(ran))
+            try:
+                paths = [r for _, r in explore(go, max_paths=100)]
+            except Imprecise as e:
+                raise AnchorError(f"{label} could not be interpreted: {e}")
+            npaths += len(paths)
+            may = allowed is None or req <= allowed
+            for r in paths:
+                tag = f"required={sorted(req)} allowed={'no ceiling' if allowed is None else sorted(allowed)}"
+                if "raised" in r:
+                    bad.append(f"{tag}: raises {r['raised']}")
+                elif r["ran"] and not may:
+                    bad.append(f"{tag}: the tool body ran although its requirements exceed the ceiling")
+                elif not may and r["success"] is not False:
+                    bad.append(f"{tag}: the refusal is reported as success={r['success']!r}")
+                elif may and (r["ran"] != 1 or r["success"] is not True):
+                    bad.append(f"{tag}: an admissible tool ran {r['ran']}× with success={r['success']!r}")
+        key = f"Mitochondria.{label} ▸ capability table ({len(combos)} required × allowed cells)"
+        fn = etc if how == "call" else met
+        if bad:
+            ok_all = False
+            led.fail("C03-R1", key, where(fn, fn.node), f"{len(set(bad))} cell(s), e.g. {sorted(set(bad))[0]}", path=sorted(set(bad))[:8],
+                     witness="Mitochondria(allowed_capabilities=set()) + tool requiring NET: the tool body runs")
+        else:
+            led.ok("C03-R1", key, where(fn, fn.node), f"{npaths} path(s): the tool body runs ⇔ no ceiling ∨ required ⊆ allowed; a refusal is a failure result; an admissible tool runs once")
+    # ---- histories: a verdict obtained for one tool / one ceiling must not carry over to another
+    def extra_kwargs(fn, known):
+        """every optional parameter of the entry point that the statement does not mention is the caller's to choose: symbolic"""
+        a = fn.node.args
+        names = [x.arg for x in a.args[1:] + a.kwonlyargs]
+        return {n: Unknown(f"caller_chooses_{n}") for n in names if n not in known}
+    hist_bad, hpaths = [], 0
+    for how in ("forced", "call"):
+        for scenario in ("same name re-registered with a forbidden tool", "ceiling lowered after an admitted call", "another tool object of the same shape"):
+            def go_h(o, _how=how, _sc=scenario):
+                it = Interp(p, o)
+                ran = []
+
+                def mk(label):
+                    @stub
+                    def body(interp, args, kwargs):
+                        ran.append(label)
+                        return "done"
+                    return body
+                net = it.enum_member(CAP, members[2])
+                m = it.instantiate(mito, [], dict(allowed_capabilities=({net} if _sc.startswith("ceiling") else set()), silent=True))
+                good = it.instantiate(st, [], dict(name="t", description="d", func=mk("good"), required_capabilities=({net} if _sc.startswith("ceiling") else set())))
+                evil = it.instantiate(st, [], dict(name=("t" if _sc.startswith("same name") else "u"), description="d", func=mk("evil"), required_capabilities={net}))
+                reg = p.find_method(mito, "engulf_tool")
+
+                def call(name):
+                    if _how == "call":
+                        tc = Obj(None, {"name": name, "id": "c1", "arguments": {}}, tag="toolcall")
+                        return it.call_fi(etc, [m, tc], extra_kwargs(etc, ("call",)))
+                    return it.call_fi(met, [m, f"{name}()", it.enum_member(MP, "OXIDATIVE")], extra_kwargs(met, ("expression", "pathway")))
+                try:
+                    it.call_fi(reg, [m, good], {})
+                    call("t")
+                    n_good = len(ran)
+                    if _sc.startswith("same name"):
+                        it.call_fi(reg, [m, evil], {})
+                        r = call("t")
+                    elif _sc.startswith("ceiling"):
+                        m.fields["allowed_capabilities"] = set()
+                        r = call("t")
+                    else:
+                        it.call_fi(reg, [m, evil], {})
+                        r = call("u")
+                except PyRaise as e:
+                    return dict(raised=repr(e.exc))
+                return dict(later=ran[n_good:], success=r.fields.get("success") if isinstance(r, Obj) else None)
+            try:
+                paths = [r for _, r in explore(go_h, max_paths=200)]
+            except Imprecise as e:
+                raise AnchorError(f"capability history could not be interpreted: {e}")
+            hpaths += len(paths)
+            for r in paths:
+                tag = f"{'execute_tool_call' if how == 'call' else 'metabolize'}, {scenario}"
+                if "raised" in r:
+                    hist_bad.append(f"{tag}: raises {r['raised']}")
+                elif r["later"]:
+                    hist_bad.append(f"{tag}: the tool body ran although its requirements exceed the ceiling at the time of the call (a clearance obtained earlier, or chosen by the caller, was reused)")
+                elif r["success"] is not False:
+                    hist_bad.append(f"{tag}: the refusal is reported as success={r['success']!r}")
+    key = "Mitochondria ▸ capability verdicts do not carry over (re-registration, lowered ceiling, look-alike tool; optional parameters chosen by the caller)"
+    if hist_bad:
+        ok_all = False
+        led.fail("C03-R1", key, where(etc, etc.node), sorted(set(hist_bad))[0], path=sorted(set(hist_bad))[:8],
+                 witness="call a benign tool, re-register its name with a tool requiring NET under allowed_capabilities=set(), call again: the body runs")
+    else:
+        led.ok("C03-R1", key, where(etc, etc.node), f"{hpaths} path(s) over 3 histories × 2 entry points: the later, inadmissible call is refused")
+    return [met, etc], ok_all
+
+
 def _is_allowed(fi, e, depth=0):
     """expression denotes the configured capability ceiling (`self.allowed_capabilities`, or a local bound to it)"""
     if "allowed_capabilities" in src(e):
